@@ -22,7 +22,7 @@ SPEC = dict(
           "two random days per year; thorough = EVERY date 1000-01-01..9999-12-31 (exhaustive, sharded by year "
           "range) x 19 patterns pairing each calendar part with its year part (13 two-digit-year patterns on "
           "2001..2099, all days); other parts: grammar-G patterns (nested optional groups, literal text) x boundary "
-          "and random states; CLI chains: `bumpver test` output fed back as the next input; non-trivial+distinct = "
+          "and random states; CLI chains: `bumpver test` output fed back as the next input; states reached by bumping: the output of one real `bumpver test` (and of incr() itself) from a reachable state under random flags is read back and re-rendered; non-trivial+distinct = "
           "distinct (calendar pattern, rendered text) pairs counted as text transitions along each shard's "
           "contiguous date range (minus one per pattern per shard, conservative) + distinct (pattern shape, "
           "#groups omitted, #groups present) of the grammar cases"),
